@@ -75,7 +75,7 @@ var specialTexts = []string{
 	`"AA\/\"\\\b\f\n\r\t"`, `"😀"`, `"\ud800"`, `"\udc00x"`, `"\ud800A"`, "\"é\U0001F600  \"", `"<>&"`, `"< "`,
 	`-0`, `1.0`, `1E+2`, `1e400`, `12345678901234567890123`, `0.1e-7`, `-1.5E-0`, `[1.0,1.00,-0.0,1e0]`,
 	`{"b":1.0,"a":{"z":null,"y":[1e400]},"":"", "A":2}`, `{"k":"‸‹›‿‪"}`, `[" ‸","¨("]`,
-	`{"x":{"x":{"x":[[[{"deep":true}]]]}}}`, ` [ ] `, ` { } `, `"\u0000\u001f\u007f"`,
+	`{"x":{"x":{"x":[[[{"deep":true}]]]}}}`, `"\u007f\u0080\u07ff\u0800\uffff\ud800\udc00\udbff\udfff"`, "\"\u0080\u07ff\u0800\uffff\U00010000\U0010FFFF\u2068\u2069\"", ` [ ] `, ` { } `, `"\u0000\u001f\u007f"`,
 	"\"\xe2\x80\xb8 \xe2\x80\xbf \xe2\x80\xaa \xe2\x80\xa8\"", // U+2038 U+203F U+202A U+2028 raw
 }
 
